@@ -54,9 +54,22 @@ def cq_backend(b):
         cq_labels(b.get("subsel")))
 
 
+def is_dyn(c):
+    return c.get("fam") == "dyn"
+
+
+def new_cluster(c):
+    """the cluster a dyn case ends in"""
+    return {"svcs": c["dyn"]["svcs2"], "slices": c["dyn"]["slices2"], "pods": c.get("pods")}
+
+
 def rows_of(c):
     """one Coq row per backend of the case; row id = case id * 100 + backend index"""
     out = []
+    if is_dyn(c):
+        return ["dyn_case %d %s false cl_%d %s %s %s" % (
+            c["id"] * 100, C.cq_bool(c["plus"]), c["id"], C.cq_str(NS), cq_backend(c["backends"][0]),
+            C.cq_list([C.cq_str(x) for x in c["obs"].get("after") or []]))]
     for i, (b, o) in enumerate(zip(c["backends"], c["obs"])):
         out.append("backend_case %d %s %s cl_%d %s %s %s %s %s %s %s %s" % (
             c["id"] * 100 + i, C.cq_bool(c["plus"]), C.cq_bool(c["resolver"]), c["id"], C.cq_str(NS), cq_backend(b),
@@ -67,6 +80,9 @@ def rows_of(c):
 
 
 def usable(c):
+    if is_dyn(c):
+        o = c.get("obs")
+        return isinstance(o, dict) and not o.get("error") and not o.get("panic")
     return isinstance(c.get("obs"), list)
 
 
@@ -77,7 +93,7 @@ def evaluate(run, cases, tag):
     body = "From NIC Require Import Endpoints.Model Endpoints.Spec Endpoints.Cases.\n"
     rows = []
     for c in cases:
-        body += "Definition cl_%d : Cluster :=\n  %s.\n" % (c["id"], cq_cluster(c))
+        body += "Definition cl_%d : Cluster :=\n  %s.\n" % (c["id"], cq_cluster(new_cluster(c) if is_dyn(c) else c))
         rows += rows_of(c)
     body += "Definition results : list (list Z) := Eval vm_compute in\n  [" + ";\n   ".join(rows) + "].\nPrint results.\n"
     path = os.path.join(C.WORK, "cases", "C14_%s.v" % tag)
@@ -103,6 +119,9 @@ def judge(run, cases, res):
     for row in res:
         rid, agree, spec, nontrivial, tag, kind = row
         c = byid[rid // 100]
+        if is_dyn(c):
+            judge_dyn(run, c, agree, spec, nontrivial, tag, kind)
+            continue
         b, o = c["backends"][rid % 100], c["obs"][rid % 100]
         one = dict(c, backends=[b], obs=[o])
         run.count_case(canon_backend(c, b), bool(nontrivial))
@@ -130,6 +149,39 @@ def judge(run, cases, res):
                         theorem="correspondence Endpoints.Model ~ internal/k8s/controller.go endpoint resolution", found_input=False)
 
 
+def judge_dyn(run, c, agree, spec, nontrivial, tag, kind):
+    b, o, op = c["backends"][0], c["obs"], c["dyn"]["op"]
+    run.count_case({"fam": "dyn", "plus": c["plus"], "svcs": c["svcs"], "slices": c["slices"], "pods": c["pods"], "backend": b, "dyn": c["dyn"]},
+                   bool(nontrivial) or o["before"] != o["after"])
+    run.cov["traces_validated_against_impl"] += 1
+    bt = run.cov.setdefault("by_branch", {})
+    bt[str(tag)] = bt.get(str(tag), 0) + 1
+    dy = run.cov.setdefault("dyn_by_op", {})
+    key = "%s:%s" % (op, "changed" if o["before"] != o["after"] else "unchanged")
+    dy[key] = dy.get(key, 0) + 1
+    if not o.get("has_file"):
+        run.failing({"kind": "backend-disappeared", "backend": b["kind"], "fam": "dyn"}, [c],
+                    "dyn case %d: the configuration file of the %s is gone after the events %s" % (c["id"], b["kind"], o["events"]),
+                    theorem="C14_empty_is_error_backend")
+    elif not spec:
+        if kind in (1, 2, 4):          # a known defect of the resolution itself, on the new cluster
+            sig = {"kind": FAILKIND[kind]}
+        else:
+            stale = o["before"] == o["after"]
+            sig = {"kind": "stale-after-event" if stale else "wrong-after-event", "op": op,
+                   "enqueued": o["queued"] > 0}
+        run.failing(sig, [c], "dyn case %d (%s -> %s:%s, change `%s`, events %s, %d task(s) queued, %d synced): NGINX is left with %s (before the events: %s), "
+                    "which is not the resolution on the cluster after the events (%s)"
+                    % (c["id"], b["kind"], b["svc"], b["port_name"] or b["port_num"], op, o["events"], o["queued"], o["synced"],
+                       json.dumps(o["after"])[:200], json.dumps(o["before"])[:200], FAILKIND.get(kind, "other")),
+                    theorem="Endpoints.Cases.dyn_case / C14_exact on the cluster after the events")
+    elif not agree:
+        run.failing({"kind": "correspondence", "backend": b["kind"], "fam": "dyn"}, [c],
+                    "dyn case %d: the configured servers %s differ from the model's rendering on the new cluster although the specification holds"
+                    % (c["id"], json.dumps(o["after"])[:300]),
+                    theorem="correspondence Endpoints.Model ~ event handlers + sync", found_input=False)
+
+
 TRUSTED = [
     "Rocq 8.16.1 kernel incl. vm_compute (no native_compute); no axioms (Print Assumptions: closed)",
     "hand-written model coq/Endpoints/Model.v of getEndpointsForIngressBackend / getEndpointsForPortFromEndpointSlices / getTargetPort / findPort / "
@@ -137,12 +189,15 @@ TRUSTED = [
     "run by the correspondence harness harness/overlay/internal/verifh/c14 (real LoadBalancerController over populated cache stores; real "
     "createIngressEx, createVirtualServerEx, createTransportServerEx, generateNginxCfg, GenerateVirtualServerConfig, generateTransportServerConfig)",
     "client-go cache.Store / Indexer and labels.Selector are called, label matching is also modelled; Go net.JoinHostPort and strconv.Itoa are modelled",
-    "the nginx templates are not executed here: the observable is the list of server entries of the generated upstream structure (one `server` line each)",
+    "static family: the nginx templates are not executed, the observable is the list of server entries of the generated upstream structure; dynamic "
+    "family: the production templates are executed by the real Configurator and the `server` lines inside `upstream` blocks are parsed from the file",
+    "dynamic family: the harness plays the shared informer (store update, then the real handler) and the queue worker (Get, real lbc.sync, Done); "
+    "fake clientsets, informers never started",
 ]
 
 
 def check(run):
-    n = 1000 if run.tier == "quick" else 20000
+    n = 920 if run.tier == "quick" else 20000
     run.proof_obligations()
     binary = C.go_build("c14")
     out = os.path.join(C.WORK, "cases", "c14_%s.jsonl" % run.tier)
@@ -154,7 +209,7 @@ def check(run):
     for k in range(0, len(cases), shard):
         part = cases[k:k + shard]
         judge(run, part, evaluate(run, part, "%s_%d" % (run.tier, k // shard)))
-    for c in cases[:1] + [x for x in cases if x["class"] == "gen"][:2]:
+    for c in cases[:1] + [x for x in cases if x["class"] == "gen"][:1] + [x for x in cases if x["class"] == "dyn"][:2]:
         run.sample(c)
     run.cov["rule"] = ("a corpus of 9 fixed clusters (witnesses of the *_refuted theorems and the corner cases named in the property) followed by generated "
                        "clusters: 1-3 services (numeric / named / defaulted target ports, 1-3 ports, unnamed single port, ExternalName, selector-less, IPv4 / "
@@ -166,7 +221,13 @@ def check(run):
                        "sub-selectors), TransportServer, with and without cluster-IP mode, also missing services / ports.  One evaluation = one backend of one "
                        "cluster: the model is compared with getEndpointsForIngressBackend / getEndpointsForSubselector, with the Endpoints entry of the extended "
                        "resource and with the server entries of the generated upstream; the specification is evaluated on the entry and the server entries. "
-                       "A case is distinct by cluster + backend; a case is non-trivial when its Endpoints entry is not empty.")
+                       "A case is distinct by cluster + backend; a case is non-trivial when its Endpoints entry is not empty.  "
+                       "Dynamic family (n/4 cases + the seeded scenario for each resource kind): a controller built by NewLoadBalancerController over a real "
+                       "Configurator (production templates, recording fake manager); the resource is added and synced, then the cluster changes (targetPort "
+                       "of the Service + slice ports rewritten in place; one slice port number; readiness; addresses; the service-name label; slice "
+                       "deleted / added; service port number) and the change is delivered as watch events to the REAL createServiceHandlers / "
+                       "createEndpointSliceHandlers, the REAL work queue is drained with the REAL lbc.sync, and the `server` lines of the file written last "
+                       "must be the resolution on the cluster AFTER the events (dyn_by_op counts how many changes altered the servers).")
     run.cov["trusted_base"] = TRUSTED
     run.assumptions += ["the pod lister returns pods in Go map order; the model is compared under every choice of the first pod",
                         "the nginx templates turn every server entry of the generated upstream into exactly one `server` line (not executed here)",
@@ -186,6 +247,10 @@ def replay(run, path):
     byid = {c["id"]: c for c in cases}
     for r in res:
         c = byid[r[0] // 100]
+        if is_dyn(c):
+            print("replay dyn case %d: impl obs=%s  model-agrees=%d spec=%d failure-kind=%s" % (
+                r[0] // 100, json.dumps(c["obs"])[:600], r[1], r[2], FAILKIND.get(r[5], "none")))
+            continue
         print("replay case %d backend %d: impl obs=%s  model-agrees=%d spec=%d failure-kind=%s" % (
             r[0] // 100, r[0] % 100, json.dumps(c["obs"][r[0] % 100])[:500], r[1], r[2], FAILKIND.get(r[5], "none")))
     judge(run, cases, res)
